@@ -623,3 +623,282 @@ Proof.
     exact Hclose.
   - destruct m; reflexivity.
 Qed.
+
+(** ** FieldList (14):  (Field __)*  up to the closing '}' or ')' *)
+Fixpoint render_fds (fs : list fd_spec) (tail : bytes) : bytes :=
+  match fs with [] => tail | f :: r => render_fd f (render_fds r tail) end.
+
+(** a field spelled  name  with nothing at all after it must be the last one (otherwise its name
+    would fuse with the digits of the next id) *)
+Definition fd_tail_ok_l (tl : fd_tail) (last : bool) : Prop :=
+  match tl with
+  | FT_plain W => run_of p_wsnl W /\ (W = [] -> last = true)
+  | other => fd_tail_ok other []
+  end.
+Definition fd_ok_l (f : fd_spec) (last : bool) : Prop :=
+  int64 (fd_id f) /\ run_of p_blank (fd_g1 f) /\ run_of p_blank (fd_g2 f) /\ mod_ok (fd_mod f) /\ ty_ok (fd_ty f)
+  /\ ascii (fd_c f) /\ p_start (fd_c f) = true /\ run_of p_cont (fd_t f) /\ fd_tail_ok_l (fd_tl f) last.
+Fixpoint fds_ok (fs : list fd_spec) : Prop :=
+  match fs with
+  | [] => True
+  | f :: r => fd_ok_l f (match r with [] => true | _ => false end) /\ fds_ok r
+  end.
+
+Definition is_close (cl : Z) : Prop := cl = 125 \/ cl = 41.
+
+Lemma fd_ok_of_l : forall f last more, fd_ok_l f last -> (last = true -> stops p_cont more) -> fd_ok f more.
+Proof.
+  intros f last more (Hz & Hg1 & Hg2 & Hmod & Hty & Hc & Hp & Ht & Htl) Hl.
+  repeat (split; [assumption|]).
+  destruct (fd_tl f); cbn [fd_tail_ok_l fd_tail_ok] in *; try exact Htl.
+  destruct Htl as [HW Hlast]. split; [exact HW|]. intros HWn. exact (Hl (Hlast HWn)).
+Qed.
+
+Lemma render_int_first : forall z x, int64 z -> exists d r, render_int z ++ x = d :: r /\ ascii d /\ (d = 45 \/ p_digit d = true).
+Proof.
+  intros z x Hz. unfold render_int, render_nat, int64 in *.
+  assert (Hpow : 10 ^ Z.of_nat 20 = 100000000000000000000) by reflexivity.
+  destruct (Z.ltb_spec z 0).
+  - cbn [app]. eexists; eexists. split; [reflexivity|]. split; [unfold ascii; lia | left; reflexivity].
+  - destruct (render_nat_fuel_head 20 z [] ltac:(lia) ltac:(lia)) as (d & t & Hr & Hd). rewrite Hr. cbn [app].
+    eexists; eexists. split; [reflexivity|]. split; [unfold ascii; lia|]. right.
+    unfold p_digit. cbn [in_chars in_ranges orb].
+    destruct (Z.leb_spec 48 d); destruct (Z.leb_spec d 57); cbn [andb orb]; try reflexivity; lia.
+Qed.
+
+Lemma render_fds_head : forall fs cl x, fds_ok fs -> is_close cl -> close_or_id (render_fds fs (cl :: x)).
+Proof.
+  intros [|f r] cl x Hok Hcl; cbn [render_fds].
+  - exists cl, x. split; [reflexivity|]. destruct Hcl as [-> | ->]; (split; [unfold ascii; lia | tauto]).
+  - destruct Hok as [(Hz & _) _]. unfold render_fd.
+    destruct (render_int_first (fd_id f) (fd_g1 f ++ 58 :: fd_g2 f ++ render_mod (fd_mod f)
+                 (render_ty (fd_ty f) ((fd_c f :: fd_t f) ++ fd_tail_text (fd_tl f) (render_fds r (cl :: x))))) Hz)
+      as (d & t & Hr & Hd & Hk).
+    exists d, t. split; [exact Hr|]. split; [exact Hd | tauto].
+Qed.
+
+Lemma field_fails_at_close : forall cl x cr o es fr, is_close cl ->
+  evals (CRef 15) cr (st_of (cl :: x) o es) fr (Done false VNil (st_of (cl :: x) o es) fr).
+Proof.
+  intros cl x cr o es fr Hcl. destruct struct_shapes as (_ & _ & _ & _ & _ & H15 & _).
+  assert (Hid : evals (CLabel "id" (CRef 34)) 15 (st_of (cl :: x) o es) [("docstr"%string, VNil)]
+                      (Done false VNil (st_of (cl :: x) o es) [("docstr"%string, VNil)])).
+  { apply E_label_fail with (fr1 := []). apply int_constant_fails.
+    destruct Hcl as [-> | ->]; (split; [unfold ascii; lia | split; reflexivity]). }
+  eapply E_ref; [exact H15|]. apply E_act_fail. apply E_seq.
+  eapply S_ok; [refine (doc_opt_nil 15 (cl :: x) o es [] _);
+                destruct Hcl as [-> | ->]; (split; [unfold ascii; lia | repeat constructor; lia])|].
+  exact (S_fail 15 _ _ _ _ _ _ _ _ _ Hid).
+Qed.
+
+Lemma close_stops_cont : forall cl x, is_close cl -> stops p_cont (cl :: x).
+Proof. intros cl x [-> | ->]; (split; [unfold ascii; lia | reflexivity]). Qed.
+
+Lemma fields_loop : forall fs cl x o es fr acc,
+  fds_ok fs -> is_close cl ->
+  exists o' lvs,
+    map first_of lvs = map (fun f => Some (VField (field_of f))) fs
+    /\ loops (CSeq [CRef 15; CRef 55]) 14 (st_of (render_fds fs (cl :: x)) o es) fr acc
+             (Done true (VList (rev acc ++ lvs)) (st_of (cl :: x) o' es) fr).
+Proof.
+  induction fs as [|f r IH]; intros cl x o es fr acc Hok Hcl.
+  - exists o, []. split; [reflexivity|]. cbn [render_fds]. rewrite app_nil_r.
+    eapply L_stop. apply E_seq.
+    exact (S_fail 14 _ _ _ _ _ _ _ _ _ (field_fails_at_close cl x 14 o es [] Hcl)).
+  - destruct Hok as [Hf Hr]. cbn [render_fds].
+    assert (Hmore : close_or_id (render_fds r (cl :: x))) by exact (render_fds_head r cl x Hr Hcl).
+    assert (Hfd : fd_ok f (render_fds r (cl :: x))).
+    { apply (fd_ok_of_l f _ _ Hf). intros Hl. destruct r; [exact (close_stops_cont cl x Hcl) | discriminate]. }
+    destruct (field_rule f (render_fds r (cl :: x)) 14 o es [] Hfd Hmore) as (o1 & W' & HW' & Hval).
+    assert (Hf6 : head_not [32; 9; 13; 10; 47; 35] (render_fds r (cl :: x))).
+    { pose proof (close_or_id_big _ Hmore) as Hb. unfold fbig in Hb. sub_head Hb. }
+    destruct (IH cl x (o1 + Z.of_nat (List.length W')) es fr
+                 (VList [VField (field_of f); VList (bytes_vals W')] :: acc) Hr Hcl)
+      as (o' & lvs & Hmap & Hloop).
+    exists o', (VList [VField (field_of f); VList (bytes_vals W')] :: lvs). split.
+    + cbn [map first_of as_list idx nth_error obind]. rewrite Hmap. reflexivity.
+    + eapply L_step.
+      * apply E_seq. eapply S_ok; [exact Hval|].
+        eapply S_ok; [exact (gap_free W' _ 14 o1 es [] HW' Hf6)|]. apply S_nil.
+      * cbn [rev] in Hloop. rewrite <- app_assoc in Hloop. exact Hloop.
+Qed.
+
+Lemma collect_fields : forall fs lvs,
+  map first_of lvs = map (fun f => Some (VField (field_of f))) fs ->
+  omap (fun v => let? x := first_of v in match x with VField f => Some f | _ => None end) lvs
+  = Some (map field_of fs).
+Proof.
+  induction fs as [|f r IH]; intros [|lv lvs] Hm; try discriminate Hm; [reflexivity|].
+  cbn [map] in Hm. injection Hm as Hf Hr. cbn [omap]. rewrite Hf. cbn [obind].
+  rewrite (IH lvs Hr). reflexivity.
+Qed.
+
+Lemma field_list_rule : forall fs cl x cr o es fr,
+  fds_ok fs -> is_close cl ->
+  exists o', evals (CRef 14) cr (st_of (render_fds fs (cl :: x)) o es) fr
+                   (Done true (VFields (map field_of fs)) (st_of (cl :: x) o' es) fr).
+Proof.
+  intros fs cl x cr o es fr Hok Hcl. destruct struct_shapes as (_ & _ & _ & _ & H14 & _).
+  destruct (fields_loop fs cl x o es [] [] Hok Hcl) as (o' & lvs & Hmap & Hloop).
+  exists o'. eapply E_ref; [exact H14|]. eapply E_act_ok.
+  - apply E_label_ok with (fr1 := []). apply E_star. exact Hloop.
+  - unfold finish_action, run_action, run_action_opt.
+    cbn [fget find fst snd String.eqb Ascii.eqb Bool.eqb as_list obind app rev].
+    rewrite (collect_fields fs lvs Hmap). reflexivity.
+Qed.
+
+(** ** StructLike (13):  name w1 '{' w2 fields '}' g3 LF  *)
+Record sl_spec := mk_sl { sl_c : Z; sl_t : bytes; sl_w1 : bytes; sl_w2 : bytes; sl_fs : list fd_spec;
+                          sl_g3 : bytes; sl_w : bytes }.
+Definition sl_ok (s : sl_spec) : Prop :=
+  ascii (sl_c s) /\ p_start (sl_c s) = true /\ run_of p_cont (sl_t s)
+  /\ run_of p_wsnl (sl_w1 s) /\ run_of p_wsnl (sl_w2 s) /\ fds_ok (sl_fs s)
+  /\ run_of p_blank (sl_g3 s) /\ run_of p_wsnl (sl_w s).
+Definition render_sl (s : sl_spec) (more : bytes) : bytes :=
+  (sl_c s :: sl_t s) ++ sl_w1 s ++ 123 :: sl_w2 s
+  ++ render_fds (sl_fs s) (125 :: sl_g3 s ++ 10 :: sl_w s ++ more).
+Definition struct_of (s : sl_spec) : struct := mkstruct None (sl_c s :: sl_t s) (map field_of (sl_fs s)) 0 [].
+
+Lemma struct_like_rule : forall s more cr o es fr,
+  sl_ok s -> decl_follow more ->
+  exists o', evals (CRef 13) cr (st_of (render_sl s more) o es) fr
+                   (Done true (VStruct (struct_of s)) (st_of (sl_w s ++ more) o' es) fr).
+Proof.
+  intros [c t w1 w2 fs g3 w] more cr o es fr (Hc & Hp & Ht & Hw1 & Hw2 & Hfs & Hg3 & Hw) Hm.
+  unfold render_sl, struct_of. cbn [sl_c sl_t sl_w1 sl_w2 sl_fs sl_g3 sl_w] in *.
+  destruct struct_shapes as (_ & _ & _ & H13 & _).
+  set (tail := g3 ++ 10 :: w ++ more).
+  set (body := render_fds fs (125 :: tail)).
+  assert (Hbody : close_or_id body) by exact (render_fds_head fs 125 tail Hfs (or_introl eq_refl)).
+  pose proof (close_or_id_big body Hbody) as Hbig. unfold fbig in Hbig.
+  assert (Hb6 : head_not [32; 9; 13; 10; 47; 35] body) by sub_head Hbig.
+  assert (H123 : head_not [32; 9; 13; 10; 47; 35] (123 :: w2 ++ body)) by (split; [unfold ascii; lia | repeat constructor; lia]).
+  assert (Hn2 : ascii_next (w2 ++ body)) by exact (run_app_ascii_next p_wsnl w2 body Hw2 (head_not_ascii_next _ body Hbig)).
+  assert (Hn3 : ascii_next tail).
+  { unfold tail. apply (run_app_ascii_next p_blank g3 _ Hg3). cbn. unfold ascii; lia. }
+  assert (Hstop : stops p_cont (w1 ++ 123 :: w2 ++ body)).
+  { destruct w1 as [|d w1']; cbn [app]; [split; [unfold ascii; lia | reflexivity]|].
+    inversion Hw1 as [|? ? [Hd Hpd] _]; subst. split; [exact Hd | exact (wsnl_not_cont d Hpd)]. }
+  destruct (field_list_rule fs 125 tail 13 (o + Z.of_nat (List.length (c :: t)) + Z.of_nat (List.length w1) + 1
+                                              + Z.of_nat (List.length w2)) es [] Hfs (or_introl eq_refl)) as [o1 Hfl].
+  eexists. eapply E_ref; [exact H13|]. eapply E_act_ok.
+  - apply E_seq.
+    eapply S_ok; [apply E_label_ok with (fr1 := []); apply (E_of_bound (List.length t + 12)); intros f Hf;
+                  exact (identifier_rule c t (w1 ++ 123 :: w2 ++ body) f 13%nat o es [] Hc Hp Ht Hstop Hf)|].
+    eapply S_ok; [exact (gap_free w1 (123 :: w2 ++ body) 13 _ es _ Hw1 H123)|].
+    eapply S_ok; [exact (char_lit_ok 123 13 (w2 ++ body) _ es _ ltac:(unfold ascii; lia) Hn2)|].
+    eapply S_ok; [exact (gap_free w2 body 13 _ es _ Hw2 Hb6)|].
+    eapply S_ok; [apply E_label_ok with (fr1 := []); exact Hfl|].
+    eapply S_ok; [exact (char_lit_ok 125 13 tail _ es _ ltac:(unfold ascii; lia) Hn3)|].
+    eapply S_ok; [exact (gap_inline g3 (10 :: w ++ more) 13 _ es _ Hg3 (nl_head_not _ [32; 9; 13; 47] ltac:(repeat constructor; lia)))|].
+    eapply S_ok; [exact (anns_opt_nil 13 (10 :: w ++ more) _ es _ (nl_head_not _ [40] ltac:(repeat constructor; lia)))|].
+    eapply S_ok; [exact (eos_newline w more 13 _ es _ Hw Hm)|].
+    apply S_nil.
+  - reflexivity.
+Qed.
+
+(** ** Struct (10), Exception (11), Union (12):  keyword g1 StructLike *)
+Inductive sl_kind := K_struct | K_exception | K_union.
+Definition kind_lit (k : sl_kind) : bytes :=
+  match k with K_struct => lit_struct | K_exception => lit_exception | K_union => lit_union end.
+Definition kind_rule (k : sl_kind) : nat := match k with K_struct => 10 | K_exception => 11 | K_union => 12 end%nat.
+Definition kind_val (k : sl_kind) (s : struct) : val :=
+  match k with K_struct => VStruct s | K_exception => VException s | K_union => VUnion s end.
+
+Record st_spec := mk_st { st_kind : sl_kind; st_g1 : bytes; st_sl : sl_spec }.
+Definition st_ok (d : st_spec) : Prop := run_of p_blank (st_g1 d) /\ sl_ok (st_sl d).
+Definition render_st (d : st_spec) (more : bytes) : bytes :=
+  kind_lit (st_kind d) ++ st_g1 d ++ render_sl (st_sl d) more.
+
+Lemma kind_lit_ascii : forall k, Forall ascii (kind_lit k).
+Proof. intros [| |]; all_ascii. Qed.
+
+Lemma struct_rule : forall d more cr o es fr,
+  st_ok d -> decl_follow more ->
+  exists o', evals (CRef (kind_rule (st_kind d))) cr (st_of (render_st d more) o es) fr
+                   (Done true (kind_val (st_kind d) (struct_of (st_sl d)))
+                         (st_of (sl_w (st_sl d) ++ more) o' es) fr).
+Proof.
+  intros [k g1 s] more cr o es fr [Hg1 Hs] Hm. unfold render_st. cbn [st_kind st_g1 st_sl] in *.
+  pose proof Hs as (Hc & Hp & _).
+  assert (Hhead : head_not [32; 9; 13; 47; 40] (render_sl s more)) by exact (start_head_not (sl_c s) _ Hc Hp).
+  destruct (struct_like_rule s more (kind_rule k) (o + Z.of_nat (List.length (kind_lit k)) + Z.of_nat (List.length g1))
+                             es [] Hs Hm) as [o' Hsl].
+  exists o'.
+  assert (Hseq : forall a, evals (CAct a (CSeq [CLit (kind_lit k); CRef 56; CLabel "st" (CRef 13)])) (kind_rule k)
+                                 (st_of (kind_lit k ++ g1 ++ render_sl s more) o es) []
+                                 (fin a (kind_rule k) (st_of (kind_lit k ++ g1 ++ render_sl s more) o es)
+                                      (st_of (sl_w s ++ more) o' es) [("st"%string, VStruct (struct_of s))])).
+  { intros a. eapply E_act_ok; [|reflexivity]. apply E_seq.
+    eapply S_ok; [refine (lit_here (kind_lit k) _ (kind_rule k) o es [] (kind_lit_ascii k) _);
+                  exact (run_app_ascii_next p_blank g1 _ Hg1 (head_not_ascii_next _ _ Hhead))|].
+    eapply S_ok; [refine (gap_inline g1 _ (kind_rule k) _ es [] Hg1 _); sub_head Hhead|].
+    eapply S_ok; [apply E_label_ok with (fr1 := []); exact Hsl|].
+    apply S_nil. }
+  destruct struct_shapes as (H10 & H11 & H12 & _).
+  destruct k; cbn [kind_rule kind_lit kind_val] in *.
+  - eapply E_ref; [exact H10|]. exact (Hseq AStruct1).
+  - eapply E_ref; [exact H11|]. exact (Hseq AException1).
+  - eapply E_ref; [exact H12|]. exact (Hseq AUnion1).
+Qed.
+
+(** ** FrugalStatement (3) and Statement (2) on a struct / exception / union *)
+Lemma keyword_rule_fails_np : forall i c l cr s o es fr,
+  keyword_rule i c l -> lit_ascii_ok (c :: l) s -> has_prefix (c :: l) s = false ->
+  evals (CRef i) cr (st_of s o es) fr (Done false VNil (st_of s o es) fr).
+Proof.
+  intros i c l cr s o es fr (a & more & Hb & Hl) Hok Hp.
+  pose proof (E_lit_at (c :: l) i s o es [] Hok Hl) as H. rewrite Hp in H.
+  eapply E_ref; [exact Hb|]. apply E_act_fail. apply E_seq.
+  exact (S_fail i _ _ _ _ _ _ _ _ _ H).
+Qed.
+
+Lemma statement_struct : forall d more cr o es fr,
+  st_ok d -> decl_follow more ->
+  exists o', evals (CRef 2) cr (st_of (render_st d more) o es) fr
+                   (Done true (VWrapper None (kind_val (st_kind d) (struct_of (st_sl d))))
+                         (st_of (sl_w (st_sl d) ++ more) o' es) fr).
+Proof.
+  intros d more cr o es fr Hd Hm.
+  destruct shapes as (_ & H2 & H3 & _).
+  destruct keyword_rules as (K4 & K5 & K6 & K7 & K9 & K10 & K11 & _).
+  destruct (struct_rule d more 3 o es [] Hd Hm) as [o' Hst].
+  exists o'. destruct d as [k g1 s]. unfold render_st in *. cbn [st_kind st_g1 st_sl] in *.
+  set (rst := g1 ++ render_sl s more) in *.
+  assert (Hk : forall c, Forall (fun x => x <> c) [115; 101; 117] -> head_not [c] (kind_lit k ++ rst)).
+  { intros c Hne. inversion Hne as [|? ? H1 Hne1]; subst. inversion Hne1 as [|? ? H2' Hne2]; subst.
+    inversion Hne2 as [|? ? H3' _]; subst.
+    destruct k; cbn [kind_lit]; unfold lit_struct, lit_exception, lit_union; cbn [app];
+      (split; [unfold ascii; lia | repeat constructor; assumption]). }
+  assert (Hfs : evals (CRef 3) 2 (st_of (kind_lit k ++ rst) o es) []
+                      (Done true (kind_val k (struct_of s)) (st_of (sl_w s ++ more) o' es) [])).
+  { eapply E_ref; [exact H3|]. apply E_choice.
+    eapply C_next; [exact (keyword_rule_fails 4 _ _ 3 _ o es [] K4 (Hk 105 ltac:(repeat constructor; lia)))|].
+    eapply C_next; [exact (keyword_rule_fails 5 _ _ 3 _ o es [] K5 (Hk 110 ltac:(repeat constructor; lia)))|].
+    eapply C_next; [exact (keyword_rule_fails 6 _ _ 3 _ o es [] K6 (Hk 99 ltac:(repeat constructor; lia)))|].
+    destruct k; cbn [kind_lit kind_rule kind_val] in *.
+    - eapply C_next; [refine (keyword_rule_fails 7 _ _ 3 _ o es [] K7 _); unfold lit_struct; cbn [app];
+                      split; [unfold ascii; lia | repeat constructor; lia]|].
+      eapply C_next; [exact (keyword_rule_fails 9 _ _ 3 _ o es [] K9 (Hk 116 ltac:(repeat constructor; lia)))|].
+      eapply C_ok. exact Hst.
+    - eapply C_next; [refine (keyword_rule_fails_np 7 _ _ 3 _ o es [] K7 _ _);
+                      [unfold lit_exception; cbn [app lit_ascii_ok]; lit_ok I | reflexivity]|].
+      eapply C_next; [exact (keyword_rule_fails 9 _ _ 3 _ o es [] K9 (Hk 116 ltac:(repeat constructor; lia)))|].
+      eapply C_next; [refine (keyword_rule_fails 10 _ _ 3 _ o es [] K10 _); unfold lit_exception; cbn [app];
+                      split; [unfold ascii; lia | repeat constructor; lia]|].
+      eapply C_ok. exact Hst.
+    - eapply C_next; [refine (keyword_rule_fails 7 _ _ 3 _ o es [] K7 _); unfold lit_union; cbn [app];
+                      split; [unfold ascii; lia | repeat constructor; lia]|].
+      eapply C_next; [exact (keyword_rule_fails 9 _ _ 3 _ o es [] K9 (Hk 116 ltac:(repeat constructor; lia)))|].
+      eapply C_next; [refine (keyword_rule_fails 10 _ _ 3 _ o es [] K10 _); unfold lit_union; cbn [app];
+                      split; [unfold ascii; lia | repeat constructor; lia]|].
+      eapply C_next; [refine (keyword_rule_fails 11 _ _ 3 _ o es [] K11 _); unfold lit_union; cbn [app];
+                      split; [unfold ascii; lia | repeat constructor; lia]|].
+      eapply C_ok. exact Hst. }
+  eapply E_ref; [exact H2|]. eapply E_act_ok.
+  - apply E_seq.
+    eapply S_ok; [exact (doc_opt_nil 2 _ o es [] (Hk 47 ltac:(repeat constructor; lia)))|].
+    eapply S_ok; [apply E_label_ok with (fr1 := []); exact Hfs|].
+    apply S_nil.
+  - reflexivity.
+Qed.
